@@ -10,7 +10,10 @@ META = {
             "extents; tolerance class: projected CRSs, large offsets, extreme aspect ratios, flipped axes) x shapes 1x1.. "
             "x dtypes f32/f64; chunkings: every composition of H and W for small shapes + ragged chunks; data_slice: "
             "unit slices, None, integer indices; points: every pixel centre, cell borders, +-{0.49,0.5,0.51,0.519,0.521,1} px "
-            "outside each edge; call histories on one object (dtype / chunks varied) against fresh objects. Non-trivial: "
+            "outside each edge + points scattered over a window twice the area's size, all sent through lookup -> (masked) index -> projection / lon/lat; "
+            "families of 2-4 areas cut from one pixel lattice (whole grid, top rows, left columns, upper-left window, shifted window, half resolution, "
+            "float32) whose dask coordinates / lon/lats are evaluated in ONE dask.compute; "
+            "call histories on one object (dtype / chunks varied) against fresh objects. Non-trivial: "
             ">= 2 chunks on an axis, a proper slice, an off-grid point, or a history with two different dtypes. "
             "Distinct = distinct canonical input.",
     "assumptions": ["exact class: arange*pixel_size+offset is exact for dyadic extents", "pyproj inverse/forward treated as data "
@@ -308,6 +311,218 @@ def check_area(ctx, name, area, exact):
             if impl != want and (exact or not (on_half or edge)):
                 ctx.disagree("conv.indices", inp, impl, want)
         ctx.case("points", (name, u, v), nontrivial=not (0 <= u <= W - 1 and 0 <= v <= H - 1) or on_half, sample={"input": inp, "impl": got} if k % 40 == 0 else None)
+    _index_round_trip(ctx, name, area, exact, pts, tr)
+
+
+def _index_round_trip(ctx, name, area, exact, lattice, tr):
+    """The integer index lookups and the index -> projection / index -> lon/lat conversions are one map in both directions: the (masked) index
+    arrays a lookup returns, handed to get_projection_coordinates_from_array_coordinates / get_lonlat_from_array_coordinates, give every point
+    inside the extent the centre of the pixel that contains it, and give NO location (x and y both unmasked) to a point outside the extent.
+    Points: the lattice of check_area plus points scattered over a window twice the size of the area; points within 0.03 px of the limits of
+    the edge tolerance zone are left out (either answer is allowed there).  Expected values come from the grid formula (exact rationals)."""
+    r = ctx.rng
+    W, H = area.width, area.height
+    g = _g(area)
+    x0, y0, x1, y1 = g[:4]
+    dx, dy = (x1 - x0) / W, (y1 - y0) / H
+    scale = float(max(abs(v) for v in g[:4]) or 1)
+    tolc = 0.0 if exact else 8 * 2.0 ** -52 * scale
+    far = [(r.uniform(-0.5 * W - 0.5, 1.5 * W - 0.5), r.uniform(-0.5 * H - 0.5, 1.5 * H - 0.5)) for _ in range(16 if ctx.quick else 80)]
+    pts = list(lattice) + [(round(u * 64) / 64, round(v * 64) / 64) for u, v in far]      # dyadic: exact in the rational oracle
+
+    def zone(t, n):     # 'in' / 'out' / None (tolerance zone, or a cell border when the area is not of the exact class)
+        t = Fraction(t)
+        lo, hi = -Fraction(1, 2), n - Fraction(1, 2)
+        if any(abs(t - e) <= Fraction(3, 100) for e in (lo, hi, lo - Fraction(2, 100), hi + Fraction(2, 100))):
+            return None
+        return "in" if lo < t < hi else "out"
+    cls = []
+    for u, v in pts:
+        zu, zv = zone(u, W), zone(v, H)
+        cls.append(None if (zu is None or zv is None) else ("in" if (zu == "in" and zv == "in") else "out"))
+    cols = np.array([p[0] for p in pts], dtype=np.float64)
+    rows_ = np.array([p[1] for p in pts], dtype=np.float64)
+    wantx = [x0 + (Fraction(u) + Fraction(1, 2)) * dx for u, _ in pts]      # the points themselves, from the grid formula
+    wanty = [y1 - (Fraction(v) + Fraction(1, 2)) * dy for _, v in pts]
+    px = np.array([float(v) for v in wantx])
+    py = np.array([float(v) for v in wanty])
+    with warnings.catch_warnings():
+        warnings.simplefilter("ignore")
+        plon, plat = tr.transform(px, py, direction="INVERSE")
+    llok = np.isfinite(plon) & np.isfinite(plat)
+    inp0 = {"area": name, "extent": [float(v) for v in g[:4]], "shape": [H, W]}
+    routes = [("projection", "AreaDefinition.get_array_indices_from_projection_coordinates", lambda: area.get_array_indices_from_projection_coordinates(px, py), None)]
+    if llok.any():
+        sel = np.flatnonzero(llok)
+        routes.append(("lonlat", "AreaDefinition.get_array_indices_from_lonlat", lambda: area.get_array_indices_from_lonlat(plon[sel], plat[sel]), sel))
+    for route, lookup_site, lookup, sel in routes:
+        idx = np.arange(len(pts)) if sel is None else sel
+        try:
+            with warnings.catch_warnings():
+                warnings.simplefilter("ignore")
+                ic, ir = lookup()
+                bx, by = area.get_projection_coordinates_from_array_coordinates(ic, ir)
+                blon, blat = area.get_lonlat_from_array_coordinates(ic, ir)
+        except Exception as e:  # noqa
+            ctx.fail("AreaDefinition.get_projection_coordinates_from_array_coordinates", f"index lookup ({route}) followed by the inverse conversion raised "
+                     f"{type(e).__name__}: {e}", inp0, tags={"kind": "raises"}, size=4)
+            continue
+        lost = np.ma.getmaskarray(ic) | np.ma.getmaskarray(ir)              # the lookup gave no pixel
+        loc_p = ~(np.ma.getmaskarray(bx) | np.ma.getmaskarray(by))          # comes back with a projection location
+        loc_l = ~(np.ma.getmaskarray(blon) | np.ma.getmaskarray(blat))      # comes back with a lon/lat
+        bxd, byd = np.ma.getdata(bx).astype(np.float64), np.ma.getdata(by).astype(np.float64)
+        # lon/lat the harness expects for a returned pixel: geodetic inverse of the centre given by the grid formula for the returned index
+        icd, ird = np.ma.getdata(ic), np.ma.getdata(ir)
+        n_out = 0
+        told = set()        # one report per symptom, route and area (the smallest stands for the rest)
+        for n_, k in enumerate(idx):
+            u, v = pts[k]
+            inp = {**inp0, "route": route, "col": u, "row": v, "proj_x": float(px[k]), "proj_y": float(py[k])}
+            c = cls[k]
+            if c == "out" or (c is None and lost[n_]):
+                n_out += 1
+                if loc_p[n_] and "out-p" not in told:
+                    told.add("out-p")
+                    ctx.fail("AreaDefinition.get_projection_coordinates_from_array_coordinates",
+                             "a point outside the extent (masked by the index lookup) comes back from lookup -> index -> projection coordinates with a "
+                             "location inside the area", inp, {"lookup_masked": bool(lost[n_]), "x": float(bxd[n_]), "y": float(byd[n_])},
+                             tags={"kind": "mask-lost"}, size=4)
+                if loc_l[n_] and "out-l" not in told:
+                    told.add("out-l")
+                    ctx.fail("AreaDefinition.get_lonlat_from_array_coordinates",
+                             "a point outside the extent (masked by the index lookup) comes back from lookup -> index -> lon/lat with a lon/lat inside the area",
+                             inp, {"lookup_masked": bool(lost[n_]), "lon": float(np.ma.getdata(blon)[n_]), "lat": float(np.ma.getdata(blat)[n_])},
+                             tags={"kind": "mask-lost"}, size=4)
+            elif c == "in":
+                if lost[n_]:
+                    continue        # reported by the lattice oracle of check_area ("point inside the extent is masked")
+                if not (loc_p[n_] and loc_l[n_]):
+                    ctx.fail("AreaDefinition.get_projection_coordinates_from_array_coordinates", "a point inside the extent loses its location in "
+                             "lookup -> index -> projection coordinates / lon/lat (result masked)", inp, size=4)
+                    continue
+                cx = x0 + (Fraction(int(icd[n_])) + Fraction(1, 2)) * dx
+                cy = y1 - (Fraction(int(ird[n_])) + Fraction(1, 2)) * dy
+                half = Fraction(1, 2) + Fraction(1, 10 ** 6)
+                contains = abs(cx - wantx[k]) <= half * abs(dx) and abs(cy - wanty[k]) <= half * abs(dy)
+                centre = abs(bxd[n_] - float(cx)) <= tolc and abs(byd[n_] - float(cy)) <= tolc
+                if not (contains and centre):
+                    ctx.fail("AreaDefinition.get_projection_coordinates_from_array_coordinates",
+                             "lookup -> index -> projection coordinates does not give the centre xmin+(c+1/2)dx, ymax-(r+1/2)dy of the pixel containing the point",
+                             inp, {"index": [int(ird[n_]), int(icd[n_])], "x": float(bxd[n_]), "y": float(byd[n_])}, size=4)
+                    continue
+                with warnings.catch_warnings():
+                    warnings.simplefilter("ignore")
+                    wl, wt = tr.transform(float(cx), float(cy), direction="INVERSE")
+                if np.isfinite(wl) and np.isfinite(wt) and not (abs(float(np.ma.getdata(blon)[n_]) - wl) <= 1e-9 and abs(float(np.ma.getdata(blat)[n_]) - wt) <= 1e-9):
+                    ctx.fail("AreaDefinition.get_lonlat_from_array_coordinates", "lookup -> index -> lon/lat is not the geodetic inverse of the containing pixel's centre",
+                             inp, {"got": [float(np.ma.getdata(blon)[n_]), float(np.ma.getdata(blat)[n_])], "want": [float(wl), float(wt)]}, size=4)
+        ctx.case("index_round_trip", (name, route, len(pts)), nontrivial=n_out > 0, sample={"input": {**inp0, "route": route, "points": len(idx), "outside": n_out}})
+        ctx.count("index_round_trip.outside_points", n_out)
+
+
+def suite_joint_compute(ctx):
+    """The dask-chunked accessors return lazy arrays; whatever else is evaluated with them, each must compute to its own area's map.
+    One case = a family of 2-4 areas cut from ONE pixel lattice (same CRS, corner and pixel size: the whole grid, its top rows / left columns,
+    an upper-left window, a shifted window of equal shape, the same extent at half resolution, another dtype), the same `chunks` argument for all,
+    get_proj_coords(chunks=) and get_lonlats(chunks=) of every member plus a cross-area difference evaluated in ONE dask.compute.
+    Oracle: the grid formula (exact rationals) for every member, its geodetic inverse through the harness's own pyproj transformer, and
+    equality with the same accessor computed on its own."""
+    import dask
+    import dask.array as da
+    import pyproj
+    from pyresample.utils.proj4 import get_geodetic_crs_with_no_datum_shift
+    r = ctx.rng
+    table = [(n_, p, e, (1000.0, 2500.0, 4000.0)) for n_, p, e in CRS_TABLE[:8]] + \
+        [("laea_km", CRS_TABLE[8][1], CRS_TABLE[8][2], (1.0, 2.5, 4.0)), ("ll", LL, (-8.0, 16.0, 0.0, 17.5), (0.25, 0.5, 0.125))]
+    for it in range(12 if ctx.quick else 120):
+        cname, proj, ext, sizes = table[it % len(table)] if it < len(table) else r.choice(table)
+        W, H = r.randrange(5, 15), r.randrange(5, 15)
+        dx = Fraction(r.choice(sizes))
+        dy = Fraction(r.choice(sizes))
+        ulx, uly = Fraction(ext[0]), Fraction(ext[3])
+        kinds = ["top_rows", "left_cols", "ul_window", "shifted", "half_res", "float32"]
+        chosen = [r.choice(kinds[:3])] + r.sample(kinds, r.randrange(1, 3))
+        members = [("full", 0, 0, W, H, 1, np.float64)]
+        for kd in chosen:
+            if kd == "top_rows":
+                members.append((kd, 0, 0, W, r.randrange(1, H), 1, np.float64))
+            elif kd == "left_cols":
+                members.append((kd, 0, 0, r.randrange(1, W), H, 1, np.float64))
+            elif kd == "ul_window":
+                members.append((kd, 0, 0, r.randrange(1, W), r.randrange(1, H), 1, np.float64))
+            elif kd == "shifted":
+                members.append((kd, r.randrange(1, 4), r.randrange(1, 4), W, H, 1, np.float64))
+            elif kd == "half_res":
+                members.append((kd, 0, 0, W, H, 2, np.float64))
+            else:
+                members.append((kd, 0, 0, W, H, 1, np.float32))
+        chunks = r.choice([r.randrange(2, 6), (r.randrange(1, 5), r.randrange(2, 7)), 4096])
+        built = []
+        for kd, co, ro, w, h, f, dtype in members:
+            mdx, mdy = dx * f, dy * f
+            e = (ulx + co * dx, uly - ro * dy - h * mdy, ulx + co * dx + w * mdx, uly - ro * dy)
+            area = _mk(proj, w, h, tuple(float(v) for v in e), dtype=dtype)
+            wx = [float(e[0] + (Fraction(c) + Fraction(1, 2)) * mdx) for c in range(w)]
+            wy = [float(e[3] - (Fraction(q) + Fraction(1, 2)) * mdy) for q in range(h)]
+            built.append((kd, area, np.meshgrid(wx, wy), dtype, float(max(abs(v) for v in e) or 1)))
+        inp = {"crs": cname, "upper_left": [float(ulx), float(uly)], "pixel_size": [float(dx), float(dy)], "chunks": chunks,
+               "members": [{"kind": m[0], "col_off": m[1], "row_off": m[2], "shape": [m[4], m[3]], "pixel_factor": m[5], "dtype": np.dtype(m[6]).name} for m in members]}
+        with warnings.catch_warnings():
+            warnings.simplefilter("ignore")
+            lazy, solo = [], []
+            for kd, area, _, dtype, _ in built:
+                lazy.append(tuple(area.get_proj_coords(chunks=chunks)) + tuple(area.get_lonlats(chunks=chunks)))
+            # a graph that uses two areas at once: the first window member against the same pixels of the whole grid
+            _, co, ro, w, h, f, dtype = members[1]
+            cross = None
+            if f == 1 and co + w <= W and ro + h <= H:
+                cross = lazy[1][0].astype(np.float64) - lazy[0][0][ro:ro + h, co:co + w]
+            try:
+                joint = dask.compute(*lazy, *([cross] if cross is not None else []))
+            except Exception as e:  # noqa
+                ctx.fail("AreaDefinition.get_proj_coords(chunks=)", f"dask coordinates / lon/lats of several areas evaluated in one dask.compute raised "
+                         f"{type(e).__name__}: {str(e)[:200]}", inp, tags={"kind": "joint-raises"}, size=len(members))
+                ctx.case("joint_compute", (cname, str(members), str(chunks)), nontrivial=True)
+                continue
+            for kd, area, _, dtype, _ in built:
+                solo.append(tuple(np.asarray(a) for a in area.get_proj_coords(chunks=chunks)) + tuple(np.asarray(a) for a in area.get_lonlats(chunks=chunks)))
+        for (kd, area, (wx2, wy2), dtype, scale), got, alone in zip(built, joint, solo):
+            minp = {**inp, "member": kd, "shape": list(area.shape)}
+            tol = 8 * (2.0 ** -52 if dtype is np.float64 else 2.0 ** -23) * scale
+            gx, gy, glon, glat = (np.asarray(a) for a in got)
+            if not (_close(gx, wx2, tol) and _close(gy, wy2, tol)):
+                ctx.fail("AreaDefinition.get_proj_coords(chunks=)", "dask-chunked projection coordinates computed together with those of other areas differ from "
+                         "the area's own grid xmin+(c+1/2)dx / ymax-(r+1/2)dy", minp,
+                         {"got_shape": list(gx.shape), "want_shape": list(wx2.shape), "got_x_row0": gx[0].tolist()[:6] if gx.ndim == 2 and gx.size else None,
+                          "want_x_row0": wx2[0].tolist()[:6]}, tags={"kind": "joint"}, size=len(members))
+            elif not all(a.shape == b.shape and np.array_equal(a, b, equal_nan=True) for a, b in zip((gx, gy), alone[:2])):
+                ctx.fail("AreaDefinition.get_proj_coords(chunks=)", "dask-chunked projection coordinates differ between a joint dask.compute and computing them alone",
+                         minp, tags={"kind": "joint"}, size=len(members))
+            if dtype is np.float64:
+                gcrs = get_geodetic_crs_with_no_datum_shift(area.crs)
+                tr = pyproj.Transformer.from_crs(gcrs, area.crs, always_xy=True)
+                with warnings.catch_warnings():
+                    warnings.simplefilter("ignore")
+                    wlon, wlat = tr.transform(wx2, wy2, direction="INVERSE")
+                fin = np.isfinite(wlon) & np.isfinite(wlat)
+                okl = glon.shape == wlon.shape and glat.shape == wlat.shape and np.array_equal(np.isfinite(glon), fin) and \
+                    _close(glon[fin], wlon[fin], 1e-9) and _close(glat[fin], wlat[fin], 1e-9)
+            else:
+                okl = True
+            okl = okl and all(a.shape == b.shape and np.array_equal(a, b, equal_nan=True) for a, b in zip((glon, glat), alone[2:]))
+            if not okl:
+                ctx.fail("AreaDefinition.get_lonlats(chunks=)", "dask-chunked lon/lats computed together with those of other areas are not the geodetic inverse of "
+                         "the area's own pixel centres (or differ from the same accessor computed alone)", minp,
+                         {"got_shape": list(glon.shape), "want_shape": list(wx2.shape)}, tags={"kind": "joint"}, size=len(members))
+        if cross is not None:
+            cr = np.asarray(joint[-1])
+            tol = 16 * (2.0 ** -52 if members[1][6] is np.float64 else 2.0 ** -23) * built[0][4]
+            if cr.shape != (members[1][4], members[1][3]) or not bool(np.all(np.abs(cr) <= tol)):
+                ctx.fail("AreaDefinition.get_proj_coords(chunks=)", "x coordinates of a window and of the same pixels of the whole grid, subtracted in one dask graph, "
+                         "are not equal", {**inp, "member": members[1][0]}, {"shape": list(cr.shape), "max_abs": float(np.max(np.abs(cr))) if cr.size else None},
+                         tags={"kind": "joint"}, size=len(members))
+        same_ul = sum(1 for m in members if m[1] == 0 and m[2] == 0 and m[5] == 1 and m[6] is np.float64)
+        ctx.case("joint_compute", (cname, str(members), str(chunks)), nontrivial=same_ul >= 2, sample={"input": inp})
 
 
 def suite_histories(ctx):
@@ -351,4 +566,5 @@ def suite_histories(ctx):
 def run(ctx):
     for name, area, exact in _areas(ctx):
         check_area(ctx, name, area, exact)
+    suite_joint_compute(ctx)
     suite_histories(ctx)
